@@ -67,7 +67,8 @@ class RequestMonitor(Monitor):
         self.control_fired = []
         self.expected = {}  # id(txn) -> [(kind, order, market_version)]
         self.delivered = {}  # id(txn) -> [(kind, order, pkg)]
-        self.unassigned = []  # packages captured since the last txn.execute returned
+        self.unassigned = []  # packages captured while no txn.execute was in progress
+        self.frames = []  # one list of captured packages per txn.execute in progress (innermost last)
         self.refused = {}  # vid -> set(kinds refused and not accepted since)
         self.txn_refs = {}
         self.scripted_calls = Counter()
@@ -150,8 +151,13 @@ class RequestMonitor(Monitor):
             return
         self.expected.setdefault(id(txn), []).append((kind, order, mv))
 
+    def on_txn_execute_before(self, txn):
+        # execute() calls nest when a pool thread runs inside submit() (its reply handling opens a transaction of its own
+        # for the replacement order): packages belong to the innermost execute() in progress
+        self.frames.append([])
+
     def on_package(self, pkg):
-        self.unassigned.append(pkg)
+        (self.frames[-1] if self.frames else self.unassigned).append(pkg)
         kind = pkg.package_type.name
         n = len(pkg._orders)
         lim = (BETDAQ_LIMITS if pkg.EXCHANGE is not None and pkg.EXCHANGE.name == "BETDAQ" else LIMITS)[kind]
@@ -161,7 +167,7 @@ class RequestMonitor(Monitor):
             self.res.probes["c02.full_chunk.%s" % kind] += 1
 
     def on_txn_execute(self, txn, n):
-        pkgs, self.unassigned = self.unassigned, []
+        pkgs = self.frames.pop() if self.frames else []
         if n != len(pkgs):
             self.violate(self.P, "C02.delivery", "execute-returned-wrong-count", returned=n, captured=len(pkgs))
         self.delivered.setdefault(id(txn), []).extend(pkgs)
